@@ -95,7 +95,8 @@ constexpr bool is_perfect_square(uint64_t n) {
     uint64_t prev = n / 2u;
     while (true) {
         const uint64_t curr = (prev + n / prev) / 2u;
-        if (curr * curr == n) {
+        // Avoid `curr * curr`: early iterates are large, and the product wraps modulo 2^64.
+        if (n / curr == curr && n % curr == 0u) {
             return true;
         }
         if (curr >= prev) {
